@@ -29,7 +29,7 @@ NPROC = os.cpu_count() or 16
 
 TIERS = {
     # explore: list of (first worker id, workers, runs per worker, concurrency bias %, restart-before-run %)
-    "quick": dict(explore=[(0, 10, 3000, 30, 75), (50, 1, 2000, 30, 10), (60, 1, 2000, 30, 1), (100, 4, 1400, 90, 75)], seconds_cap=90, sweeps=1, hash_orders=8, determinism_runs=150, miri_seeds=0, max_minimise=3, fresh_sample=48, hot_keys=2, stress=(300, 4, 12)),
+    "quick": dict(explore=[(0, 10, 3000, 30, 75), (50, 1, 2000, 30, 10), (60, 1, 2000, 30, 1), (100, 4, 1400, 90, 75)], seconds_cap=90, sweeps=1, hash_orders=8, determinism_runs=150, miri_seeds=0, max_minimise=3, fresh_sample=48, hot_keys=2, stress=(300, 5, 14)),
     "thorough": dict(explore=[(0, 10, 3000, 30, 75), (50, 1, 2000, 30, 10), (60, 1, 2000, 30, 1), (100, 4, 1400, 90, 75), (1000, 10, 40000, 30, 75), (1050, 1, 30000, 30, 10), (1060, 1, 30000, 30, 1), (2000, 4, 12000, 90, 75)], seconds_cap=540, sweeps=8, hash_orders=64, determinism_runs=400, miri_seeds=16, max_minimise=6, fresh_sample=256, hot_keys=8, stress=(300, 8, 150)),
 }
 
@@ -176,7 +176,7 @@ def shows(sim, text, viol, tries=None):
     return shows_once(sim, text, viol)
 
 
-OS_TRIES = [10]
+OS_TRIES = [30]
 
 
 def shows_once(sim, text, viol):
@@ -917,6 +917,11 @@ def run_check(tier, seed):
     for path, rec in confirmed:
         print("VIOLATION property=C10 replay=%s" % path)
         print("  obligation %s, query `%s`: got %s, expected %s (%s); %d operations after minimisation (from %d)" % (rec["obligation"], rec["query"], brief(rec["got"]), brief(rec["expected"]), rec["expected_from"] or rec["where"], rec["minimised_ops"], rec["original_ops"]))
+    # what the OS-scheduled stress sub-check saw but repetition did not show again is reported as an
+    # observation, not as a verdict and not as a harness error (its schedule is not ours to repeat)
+    for c in [c for c in unconfirmed if "stress worker" in c["source"]][:3]:
+        print("STRESS-OBSERVATION-NOT-REPRODUCED: %s on `%s`: %s (repeated %d times without showing again)" % (c["source"], c["key"], c["detail"][:160], OS_TRIES[0]))
+    unconfirmed = [c for c in unconfirmed if "stress worker" not in c["source"]]
     if unconfirmed and not confirmed:
         # a mismatch seen in a long-lived worker that does not reproduce in a fresh process is a
         # harness anomaly, not a verdict
